@@ -160,8 +160,8 @@ def run(ctx):
 
 
 META = {
-    "technique": "PAREN abstract interpretation over the @dim fold (operator-top sets, repository precedence table) plus subscript-agreement and guard facts",
+    "technique": "PAREN abstract interpretation over the @dim fold (operator-top sets, repository precedence table); TERM: abstract execution of the fold for 1..4 dimensions to the closed form of the subscript, compared in polynomial normal form with the documented mixed-radix index; re-verified trusted base (expr DSL operators); must-pass-through of the rewrite in parser_t::parseTokens; same-visit splice of the in-place map; guard facts of the @dimOrder validator",
     "level": "Static decision that in the @dim rewrite every index argument and every dimension expression reaches `+` and `*` only parenthesised - for whatever operators the user's arguments contain - that index and dimension are paired "
-             "through the same order[] subscript from the last ordered index down to the first, and that @dimOrder is validated (range, duplicates) and the argument count matches the dimension count.",
+             "through the same order[] subscript from the last ordered index down to the first, that the closed form of the rewritten subscript for 1..4 dimensions is the documented mixed-radix index over the ordered subscripts, that @dimOrder is validated (range, duplicates) and the argument count matches the dimension count, that every parse runs the rewrite before the backend transformations, and that a nested access x(y(i, j), k) is rewritten inside out (each result spliced in the same visit).",
     "note": "Does not decide bijectivity onto [0, D0*...*Dk) (arithmetic).",
 }
